@@ -13,7 +13,7 @@ timeout 3000 make -k -j16 2>&1 | tail -40
 rc=0
 for f in ../tools/manifest/C*.json; do
   id=$(basename "$f" .json)
-  if grep -q '"claimed": *true' "$f"; then
+  if grep -qw "$id" ../tools/manifest/READY; then
     if [ ! -f "theories/Props/$id.vo" ]; then echo "setup: theories/Props/$id.vo was not built"; rc=1; fi
   fi
 done
